@@ -62,16 +62,25 @@ func ruleInlineArrayWhole(w *World, r *RuleResult) {
 		}
 		return at.Len(), true
 	}
-	for _, name := range w.Names {
-		f := w.Funcs[name]
-		live := liveBlocks(f)
-		type acc struct {
-			consts   map[int64]bool
-			variable bool
-			whole    bool
-			n        int64
-			pos      string
+	type acc struct {
+		consts   map[int64]bool
+		variable bool
+		whole    bool
+		n        int64
+		pos      string
+	}
+	type scanRes struct {
+		accs     map[ssa.Value]*acc
+		loopsBad []string
+		nLoops   int
+	}
+	scans := map[*ssa.Function]*scanRes{}
+	var scan func(f *ssa.Function) *scanRes
+	scan = func(f *ssa.Function) *scanRes {
+		if sr, ok := scans[f]; ok {
+			return sr
 		}
+		live := liveBlocks(f)
 		// per receiver/base object
 		accs := map[ssa.Value]*acc{}
 		var loopsBad []string
@@ -158,18 +167,115 @@ func ruleInlineArrayWhole(w *World, r *RuleResult) {
 				}
 			}
 		}
+		sr := &scanRes{accs: accs, loopsBad: loopsBad, nLoops: nLoops}
+		scans[f] = sr
+		return sr
+	}
+	// merged: the words of the object `base` that f handles itself or through the in-package functions it
+	// hands the object to (a helper split off for one half of the words is part of its caller's handling)
+	var merged func(f *ssa.Function, base ssa.Value, depth int) (map[int64]bool, bool)
+	merged = func(f *ssa.Function, base ssa.Value, depth int) (map[int64]bool, bool) {
+		out := map[int64]bool{}
+		sr := scan(f)
+		if a := sr.accs[base]; a != nil {
+			if a.variable || a.whole {
+				return out, true
+			}
+			for k := range a.consts {
+				out[k] = true
+			}
+		}
+		if depth > 3 {
+			return out, false
+		}
+		live := liveBlocks(f)
+		for _, b := range f.Blocks {
+			if !live[b] {
+				continue
+			}
+			for _, in := range b.Instrs {
+				c, ok := in.(ssa.CallInstruction)
+				if !ok {
+					continue
+				}
+				g := callee(c)
+				if g == nil || !w.inPkg(g) || g.Blocks == nil {
+					continue
+				}
+				for i, a := range c.Common().Args {
+					if i < len(g.Params) && basePtr(a) == base && typeIs(a.Type(), apdPath, "BigInt") {
+						m, full := merged(g, g.Params[i], depth+1)
+						if full {
+							return out, true
+						}
+						for k := range m {
+							out[k] = true
+						}
+					}
+				}
+			}
+		}
+		return out, false
+	}
+	complete := func(m map[int64]bool, full bool, n int64) bool {
+		if full {
+			return true
+		}
+		for i := int64(0); i < n; i++ {
+			if !m[i] {
+				return false
+			}
+		}
+		return true
+	}
+	for _, name := range w.Names {
+		f := w.Funcs[name]
+		sr := scan(f)
+		accs, loopsBad, nLoops := sr.accs, sr.loopsBad, sr.nLoops
 		if len(accs) == 0 {
 			continue
 		}
 		key := name + " | inline words handled whole"
 		var bad []string
-		for _, a := range accs {
+		for base, a := range accs {
 			if a.variable || a.whole || len(a.consts) == 0 {
 				continue
 			}
 			// the lowest word alone is a legitimate partial view (parity of the value)
 			if len(a.consts) == 1 && a.consts[0] {
 				continue
+			}
+			// the other words are handled by a helper this function hands the object to
+			if m, full := merged(f, base, 0); complete(m, full, a.n) {
+				continue
+			}
+			// or this is such a helper: unexported, the object is its parameter, and every caller handles the
+			// remaining words of the object it passes
+			if prm, isParam := base.(*ssa.Parameter); isParam && f.Object() != nil && !f.Object().Exported() {
+				idx := -1
+				for i, q := range f.Params {
+					if q == prm {
+						idx = i
+					}
+				}
+				callers := w.callersOf(f)
+				allOK := idx >= 0 && len(callers) > 0
+				for _, c := range callers {
+					if !allOK {
+						break
+					}
+					if idx >= len(c.Common().Args) {
+						allOK = false
+						break
+					}
+					m, full := merged(c.Parent(), basePtr(c.Common().Args[idx]), 0)
+					if !complete(m, full, a.n) {
+						allOK = false
+					}
+				}
+				if allOK {
+					continue
+				}
 			}
 			var missing []string
 			for i := int64(0); i < a.n; i++ {
